@@ -425,6 +425,13 @@ impl<'a> Iterator for ControlMessageIterator<'a> {
         let cmsg = self.cmsg_prev?;
         unsafe {
             let r = cmsg.as_mut()?;
+            // A header whose length does not cover itself, or reaches past the control buffer, is
+            // malformed (the kernel's `CMSG_OK`): stop there instead of trusting `cmsg_len`
+            let remaining = __mhdr_end!(self.msghdr).saturating_sub(cmsg as usize);
+            if r.cmsg_len < core::mem::size_of::<CmsgHdr>() || r.cmsg_len > remaining {
+                self.cmsg_prev = None;
+                return None;
+            }
             if r.cmsg_type == 1 && r.cmsg_level == 1 {
                 let data = cmsg_data!(cmsg);
                 let len = cmsg.cast_const() as usize + r.cmsg_len - data as usize;
